@@ -1,6 +1,10 @@
 package evalx
 
 import (
+	"github.com/hashicorp/hcl/v2"
+	"github.com/hashicorp/hcl/v2/ext/dynblock"
+	"github.com/hashicorp/hcl/v2/hcldec"
+	"github.com/hashicorp/hcl/v2/hclsyntax"
 	"github.com/zclconf/go-cty/cty"
 
 	"verif/engine/vf"
@@ -35,4 +39,129 @@ func H_Marks() {
 	} else {
 		vf.Reach("differ")
 	}
+}
+
+var markBodies = []struct {
+	src string
+	k   kind
+}{
+	{"a = s\n", kStr},
+	{"a = \"${s}!\"\nblk {\n  x = p\n}\n", kStr},
+	{"blk {\n  x = s\n}\n", kStr},
+	{"dynamic \"blk\" {\n  for_each = [s, p]\n  content {\n    x = blk.value\n  }\n}\n", kStr},
+	{"dynamic \"blk\" {\n  for_each = s\n  content {\n    x = blk.value\n  }\n}\n", kList},
+	{"dynamic \"blk\" {\n  for_each = s\n  content {\n    x = p\n    y = blk.key\n  }\n}\n", kList},
+	{"dynamic \"blk\" {\n  for_each = s\n  iterator = it\n  content {\n    x = \"${it.key}=${it.value}\"\n  }\n}\n", kMap},
+	{"dynamic \"blk\" {\n  for_each = l\n  content {\n    x = s\n  }\n}\n", kStr},
+	{"blk {\n  x = p\n  dynamic \"inner\" {\n    for_each = s\n    content {\n      z = inner.value\n    }\n  }\n}\n", kList},
+	{"dynamic \"blk\" {\n  for_each = s ? l : []\n  content {\n    x = blk.value\n  }\n}\n", kBool},
+}
+
+var markSpecA = hcldec.ObjectSpec{
+	"a": &hcldec.AttrSpec{Name: "a", Type: cty.String},
+}
+
+var markBlkNested = hcldec.ObjectSpec{
+	"x":     &hcldec.AttrSpec{Name: "x", Type: cty.String},
+	"y":     &hcldec.AttrSpec{Name: "y", Type: cty.DynamicPseudoType},
+	"inner": &hcldec.BlockListSpec{TypeName: "inner", Nested: hcldec.ObjectSpec{"z": &hcldec.AttrSpec{Name: "z", Type: cty.String}}},
+}
+
+func markSpecB(which int) hcldec.Spec {
+	switch which {
+	case 0:
+		return hcldec.ObjectSpec{"blks": &hcldec.BlockListSpec{TypeName: "blk", Nested: markBlkNested}}
+	case 1:
+		return hcldec.ObjectSpec{"blks": &hcldec.BlockTupleSpec{TypeName: "blk", Nested: markBlkNested}}
+	case 2:
+		return hcldec.ObjectSpec{"blks": &hcldec.BlockSetSpec{TypeName: "blk", Nested: markBlkNested}}
+	}
+	return hcldec.ObjectSpec{"blk": &hcldec.BlockSpec{TypeName: "blk", Nested: markBlkNested}}
+}
+
+// decodeBody decodes the (dynamic-block-expanded) body in two steps: a partial decode
+// of the attributes, then a decode of the REMAINING body for the blocks.
+func decodeBody(src string, sval cty.Value, which int) (cty.Value, cty.Value, bool) {
+	f, diags := hclsyntax.ParseConfig([]byte(src), "m.hcl", hcl.InitialPos)
+	vf.Assert(!diags.HasErrors(), "body-catalogue-entry-parses")
+	ctx := scope(sval)
+	body := dynblock.Expand(f.Body, ctx)
+	va, remain, d1 := hcldec.PartialDecode(body, markSpecA, ctx)
+	vb, d2 := hcldec.Decode(remain, markSpecB(which), ctx)
+	return va, vb, d1.HasErrors() || d2.HasErrors()
+}
+
+// H_MarksBody (C06, bodies): the same two-run non-interference statement for
+// decoding bodies with static and dynamic blocks through hcldec.
+func H_MarksBody() {
+	slen := vf.Param("slen", 1)
+	bi := vf.Concretize(vf.Choice(len(markBodies)))
+	mb := markBodies[bi]
+	which := []int{0, 3, 1, 2}[vf.Concretize(vf.Choice(vf.Param("specs", 2)))]
+	placement := vf.Concretize(vf.Choice(2))
+	vf.Observe("body", bi)
+	c1, c2 := newContent(slen), newContent(slen)
+	mark := func(v cty.Value) cty.Value { return v.Mark("secret") }
+	v1, v2 := mkVal(mb.k, c1, c1, placement, mark), mkVal(mb.k, c2, c1, placement, mark)
+	a1, b1, e1 := decodeBody(mb.src, v1, which)
+	a2, b2, e2 := decodeBody(mb.src, v2, which)
+	if e1 || e2 {
+		vf.Reach("error")
+		return
+	}
+	for _, pair := range [][2]cty.Value{{a1, a2}, {b1, b2}} {
+		u1, _ := pair[0].UnmarkDeep()
+		u2, _ := pair[1].UnmarkDeep()
+		same := u1.RawEquals(u2)
+		// finding of record: a marked for_each that is EMPTY in one of the two runs
+		emptyForEach := (mb.k == kList && (vf.Concretize(c1.n) == 0 || vf.Concretize(c2.n) == 0) && placement == 0) ||
+			(mb.k == kBool && c1.b != c2.b)
+		vf.AssertKnown(same || (pair[0].ContainsMarked() && pair[1].ContainsMarked()), "mark-lost-in-decoding: "+mb.src, "C06-empty-marked-for_each", emptyForEach)
+		if !same {
+			vf.Reach("differ")
+		}
+	}
+	vf.Reach("done")
+}
+
+// H_MarksRemain (C06, dynamic blocks processed in two steps): the body of a block
+// generated from a marked for_each is read with PartialContent for one attribute and
+// with Content on the REMAINING body for the other; both attributes' values depend on
+// the marked collection and must carry its mark.
+func H_MarksRemain() {
+	slen := vf.Param("slen", 1)
+	c1, c2 := newContent(slen), newContent(slen)
+	mark := func(v cty.Value) cty.Value { return v.Mark("secret") }
+	src := "dynamic \"blk\" {\n  for_each = s\n  content {\n    x = blk.value\n    y = \"${blk.value}!\"\n  }\n}\n"
+	f, diags := hclsyntax.ParseConfig([]byte(src), "r.hcl", hcl.InitialPos)
+	vf.Assert(!diags.HasErrors(), "body-parses")
+	read := func(sval cty.Value) (cty.Value, cty.Value, bool) {
+		ctx := scope(sval)
+		content, d := dynblock.Expand(f.Body, ctx).Content(&hcl.BodySchema{Blocks: []hcl.BlockHeaderSchema{{Type: "blk"}}})
+		if d.HasErrors() || len(content.Blocks) == 0 {
+			return cty.NilVal, cty.NilVal, true
+		}
+		body := content.Blocks[0].Body
+		p1, remain, d1 := body.PartialContent(&hcl.BodySchema{Attributes: []hcl.AttributeSchema{{Name: "x"}}})
+		p2, d2 := remain.Content(&hcl.BodySchema{Attributes: []hcl.AttributeSchema{{Name: "y"}}})
+		if d1.HasErrors() || d2.HasErrors() || p1.Attributes["x"] == nil || p2.Attributes["y"] == nil {
+			return cty.NilVal, cty.NilVal, true
+		}
+		x, dx := p1.Attributes["x"].Expr.Value(ctx)
+		y, dy := p2.Attributes["y"].Expr.Value(ctx)
+		return x, y, dx.HasErrors() || dy.HasErrors()
+	}
+	x1, y1, e1 := read(mkVal(kList, c1, c1, 0, mark))
+	x2, y2, e2 := read(mkVal(kList, c2, c1, 0, mark))
+	if e1 || e2 {
+		vf.Reach("error")
+		return
+	}
+	for i, pair := range [][2]cty.Value{{x1, x2}, {y1, y2}} {
+		u1, _ := pair[0].UnmarkDeep()
+		u2, _ := pair[1].UnmarkDeep()
+		tag := []string{"first-step", "remaining-body"}[i]
+		vf.Assert(u1.RawEquals(u2) || (pair[0].ContainsMarked() && pair[1].ContainsMarked()), "mark-lost-in-"+tag)
+	}
+	vf.Reach("done")
 }
